@@ -14,7 +14,7 @@ RULE = ('seeded sequences (length <= 6) over {connect-ok, connect-fail(transport
         'made and the pull destination must not exist afterwards. non-trivial = the sequence contains a failed connect followed by an operation; '
         'distinct = event-log digests')
 ASSUMPTIONS = ['the <=5-step space is sampled by seed, not enumerated']
-EXPECT_PROBES = {'all': ['c13_failed_connect_then_op', 'c13_op_after_close', 'c13_empty_path', 'c13_reconnect_ok', 'c13_deferred_generator', 'c13_half_read_generator_dropped_unconnected', 'c13_transport_close_raised', 'open_refused', 'c13_small_maxdata', 'c13_available_seen_during_connect']}
+EXPECT_PROBES = {'all': ['c13_failed_connect_then_op', 'c13_op_after_close', 'c13_empty_path', 'c13_reconnect_ok', 'c13_deferred_generator', 'c13_half_read_generator_dropped_unconnected', 'c13_transport_close_raised', 'open_refused', 'c13_small_maxdata', 'c13_available_seen_during_connect', 'c13_coroutine_awaited_later']}
 OPS = ['shell', 'exec_out', 'streaming_shell', 'streaming_shell', 'root', 'reboot', 'list', 'stat', 'pull', 'push']
 OWN = ('wrong-result', 'unexpected-exception', 'timeout-instead-of-result', 'missing-exception', 'wrong-exception', 'hang', 'no-termination',
        'bytes-written-unconnected', 'transport-call-unconnected', 'file-created-unconnected', 'available-wrong', 'push-content', 'push-missing', 'push-incomplete')
@@ -83,6 +83,18 @@ def generate(seed, tier):
             if 'path' in op and g.chance(0.15):
                 op['path'] = ''
             op['rt'] = 2.0
+            if op['op'] in ('shell', 'exec_out', 'root', 'reboot', 'stat', 'list') and op.get('path', 'x') and g.chance(0.15):
+                # the operation's coroutine is created in one state of the connection and awaited in another (asyncio.create_task,
+                # gather, or simply `c = dev.shell(..)` ... `await c`): what counts is the state when it runs
+                ops.append({'op': 'coro_create', 'inner': op})
+                c3 = g.int(0, 3)
+                if c3 <= 1:
+                    ops.append({'op': 'close'})
+                elif c3 == 2:
+                    ops.append({'op': 'connect', 'expect_connect': 'refused', 'rt': 0.5, 'tt': 0.2, 'at': 0.3})
+                    plan.append('refused')
+                ops.append({'op': 'coro_await', 'rt': 2.0})
+                continue
             if op['op'] == 'streaming_shell' and g.chance(0.3):
                 # the generator is read half-way, the connection goes away, and then the caller lets go of the generator
                 d['cmds'][op['cmd']]['content']['size'] = max(d['cmds'][op['cmd']]['content'].get('size', 0), g.int(20, 400))
@@ -111,6 +123,7 @@ def generate(seed, tier):
         # the device refuses exec: (CLSE(0, id) instead of OKAY): that command times out, the connection -- and `available` -- stay as they are
         d['refuse'] = ['exec:']
         for op in ops:
+            op = op.get('inner', op)
             if op['op'] == 'exec_out':
                 op.update({'rt': 0.5, 'tt': 0.3, 'expect_timeout': True})
     d['auth'] = auth if any(a for a in auth) else None
@@ -158,9 +171,11 @@ def evaluate(case, tapes=None):
         elif k == 'close':
             connected = False
             last_connect_failed = False
-        elif k == 'ss_create':
+        elif k in ('ss_create', 'coro_create'):
             pass
         else:
+            if k == 'coro_await' and not connected:
+                pr['c13_coroutine_awaited_later'] = 1
             if k == 'ss_consume':
                 pr['c13_deferred_generator'] = 1
             if k == 'ss_drop' and not connected and i >= 2 and run.results[0][i - 2]['op'] == 'ss_next' and run.results[0][i - 2]['ok'] and run.results[0][i - 2]['value']:
